@@ -7,7 +7,8 @@ import Gallia.Gen.C17Levels
   `fileOf pfx rs` is the decompressed log file for the logged records `rs` (`pfx`: with / without the `<prio>`
   prefix); `records file mode p` reads it back through the offset table (`seek` + `readline` + parse) in a
   navigation mode with priority threshold `p`.  All theorems hold for every list of records whose text fields
-  are valid Unicode text (`Rec.WF`: scalar values only) — any length, any text, any levels.
+  are `okText` (`Rec.WF`) — any length, any levels, any valid Unicode text (`wf_of_scalar`), and even Python
+  strings with lone surrogates as long as no high surrogate is directly followed by a low one.
 -/
 namespace Gallia.C17
 open Gallia Gallia.Penlog
@@ -46,13 +47,21 @@ theorem offset_table_exact (pfx : Bool) (rs : List Rec) :
     astral code points written as surrogate pairs) the JSON literal written for it, followed by anything,
     scans back to exactly that text and leaves exactly what followed -/
 theorem unescape_escape (s : Str) (hs : ∀ c ∈ s, isScalar c = true) (rest : Bs) :
-    parseStr (jsonStr s ++ rest) = some (s, rest) := parseStr_jsonStr s hs rest
+    parseStr (jsonStr s ++ rest) = some (s, rest) := parseStr_jsonStr s (okText_of_scalar s hs) rest
+
+/-- the same for every Python `str` (code points below 0x110000, lone surrogates allowed) in which no high
+    surrogate is directly followed by a low surrogate -/
+theorem unescape_escape_lone_surrogates (s : Str) (h1 : ∀ c ∈ s, c < 0x110000) (h2 : NoPair s) (rest : Bs) :
+    parseStr (jsonStr s ++ rest) = some (s, rest) := parseStr_jsonStr s ⟨h1, h2⟩ rest
+
+/-- ... and that restriction is necessary: the two-character string U+D83D U+DE00 is read back as U+1F600 -/
+theorem surrogate_pair_not_preserved : parseStr (jsonStr [0xD83D, 0xDE00]) = some ([0x1F600], []) :=
+  pair_not_preserved
 
 /-- hence different texts are written differently -/
-theorem escape_injective (s t : Str) (hs : ∀ c ∈ s, isScalar c = true) (ht : ∀ c ∈ t, isScalar c = true)
-    (h : jsonStr s = jsonStr t) : s = t := by
-  have h1 := unescape_escape s hs []
-  have h2 := unescape_escape t ht []
+theorem escape_injective (s t : Str) (hs : okText s) (ht : okText t) (h : jsonStr s = jsonStr t) : s = t := by
+  have h1 := parseStr_jsonStr s hs []
+  have h2 := parseStr_jsonStr t ht []
   rw [h, h2] at h1
   simpa using h1.symm
 
@@ -60,6 +69,13 @@ theorem escape_injective (s t : Str) (hs : ∀ c ∈ s, isScalar c = true) (ht :
 theorem literal_printable (s : Str) : ∀ b ∈ jsonStr s, 0x20 ≤ b ∧ b < 0x7F := jsonStr_printable s
 
 /-! ### one record: same text, level, tags, timestamp -/
+
+/-- records whose text fields are valid Unicode text satisfy the hypothesis of the theorems below -/
+theorem wf_of_scalar (r : Rec) (h : r.Scalar) : r.WF := by
+  obtain ⟨h1, h2, h3, h4, h5, h6, h7, h8, h9⟩ := h
+  exact ⟨okText_of_scalar _ h1, okText_of_scalar _ h2, okText_of_scalar _ h3, okText_of_scalar _ h4,
+    fun t ht s hs => okText_of_scalar _ (h5 t ht s hs), okText_of_scalar _ h6,
+    fun s hs => okText_of_scalar _ (h7 s hs), okText_of_scalar _ h8, okText_of_scalar _ h9⟩
 
 /-- every written line parses back to the record that was logged: all eleven fields, with or without prefix -/
 theorem record_roundtrip (pfx : Bool) (r : Rec) (h : r.WF) : parseLine (writeLine pfx r) = some r :=
@@ -211,7 +227,8 @@ def sample : Rec :=
     tags := some [[97, 10], []], line := [47], stacktrace := none, levelNo := 20, levelName := [73], funcName := [102] }
 
 theorem sample_wf : sample.WF := by
-  simp only [Rec.WF, sample]
+  apply wf_of_scalar
+  simp only [Rec.Scalar, sample]
   decide
 
 example : records (fileOf true [sample, { sample with prio := 3 }]) .reverse 4 = [some { sample with prio := 3 }] := by
